@@ -259,3 +259,66 @@ Example ex_overlap_opens_at_threshold :
     crun cfgA (init, []) [Begin 1 (reqF 1) InZ; Begin 2 (reqX 2) InZ; Seq (Run (reqS 3)); End 2; End 1] in
   circ (br s') = Open /\ count_failures (map snd rs) = 2 /\ fcount (br s') = 2 /\ trips (br s') = 1 /\ fl' = [].
 Proof. vm_compute. auto. Qed.
+
+(* ---------------------------------------------------------------------- *)
+(* observers that raise                                                    *)
+
+Definition hBoth := mkHooks true true.
+Definition hBlockOnly := mkHooks true false.
+
+(* c08_cb_blocks_not_failures / c08_callbacks_never_move_the_breaker: threshold 2; two intentional blocks whose
+   on_block raises (run() raises both times, the observer was handed the BLOCKED result), then a success whose
+   on_permit returns: no failure counted, CLOSED, all three requests reached the agents *)
+Example ex_cb_blocks_raise :
+  let ops := [(Run (reqB 1), CbRaises); (Run (reqB 2), CbRaises); (Run (reqS 3), CbReturns)] in
+  let '((s', fl'), rs) := krun cfgA hBoth (init, []) (seqk ops) in
+  requests_only (map fst ops) /\
+  map (fun x => (is_raised (snd x), r_action (reply_result (snd x)))) rs =
+    [(true, ABlocked); (true, ABlocked); (false, ASuccess)] /\
+  Forall (fun x => blockb (reply_result (snd x)) = true) (firstn 2 rs) /\
+  fcount (br s') = 0 /\ circ (br s') = Closed /\ trips (br s') = 0 /\ zcalls s' = 3 /\
+  total_blocked s' = 2 /\ total_permitted s' = 1.
+Proof. vm_compute. repeat split; repeat constructor. Qed.
+
+(* c08_cb_open_implies_threshold_reached: ONE executor failure whose on_block raises is one failure - threshold 2:
+   still CLOSED with a count of 1; the second one opens the breaker *)
+Example ex_cb_failure_raise_counts_once :
+  let '((s1, _), rs1) := krun cfgA hBoth (init, []) [(Seq (Run (reqF 1)), CbRaises)] in
+  let '((s2, _), rs2) := krun cfgA hBoth (init, []) [(Seq (Run (reqF 1)), CbRaises); (Seq (Run (reqF 2)), CbRaises)] in
+  map (fun x => is_raised (snd x)) rs1 = [true] /\ circ (br s1) = Closed /\ fcount (br s1) = 1 /\
+  circ (br s2) = Open /\ fcount (br s2) = 2 /\ trips (br s2) = 1 /\
+  count_failures (map (fun x => reply_result (snd x)) rs2) = 2.
+Proof. vm_compute. repeat split; reflexivity. Qed.
+
+(* c08_callback_raises_only_after_bookkeeping: only an installed observer that is called can make run() raise -
+   on_permit is not installed here, a cache hit and an agent exception call no observer *)
+Example ex_cb_not_called :
+  is_raised (snd (run_req_k cfgA hBlockOnly CbRaises init (reqS 1))) = false /\
+  is_raised (snd (run_req_k cfgA hBoth CbRaises init (reqX 1))) = false /\
+  (let s1 := fst (run_req_k cfgA hBoth CbRaises init (reqB 1)) in
+   snd (run_req_k cfgA hBoth CbRaises init (reqB 1)) = Raised (gate_result GAnd ZExecute YBlock) /\
+   r_cached (reply_result (snd (run_req_k cfgA hBoth CbRaises s1 (reqB 1)))) = true /\
+   is_raised (snd (run_req_k cfgA hBoth CbRaises s1 (reqB 1))) = false).
+Proof. vm_compute. repeat split; reflexivity. Qed.
+
+(* c08_cb_probe_success_closes_and_clears / c08_cb_probe_failure_reopens_and_restarts: the probe's observer raises *)
+Example ex_cb_probe :
+  (let '(s', p) := run_req_k cfgA hBoth CbRaises s_due (reqS 9) in
+   is_raised p = true /\ successb (reply_result p) = true /\
+   circ (br s') = Closed /\ fcount (br s') = 0 /\ trips (br s') = 1) /\
+  (let '(s', p) := run_req_k cfgA hBoth CbRaises s_due (reqF 9) in
+   is_raised p = true /\ failureb (reply_result p) = true /\
+   circ (br s') = Open /\ fcount (br s') = 3 /\ trips (br s') = 2 /\ last_failure (br s') = Some (now s')).
+Proof. vm_compute. repeat split; reflexivity. Qed.
+
+(* c08_cb_open_isolates: OPEN with two stragglers in flight; their observers raise when they are answered, the
+   requests that arrive are refused by a run() that returns although the observer would raise *)
+Example ex_cb_isolates :
+  let ops := [(Seq (Tick 2), CbReturns); (End 1, CbRaises); (Seq (Run (reqS 7)), CbRaises); (End 2, CbRaises);
+              (Begin 3 (reqS 8) InY, CbRaises)] in
+  let '((s', fl'), rs) := krun cfgA hBoth cs_open_flying ops in
+  crequests_only (map fst ops) /\ cmonotone (map fst ops) /\ now s' - 3 < timeout cfgA /\
+  rs = [(false, Raised (gate_result GAnd ZExecute YPermit)); (true, Returned res_circuit_open);
+        (false, Raised (gate_result GAnd ZFailure YPermit)); (true, Returned res_circuit_open)] /\
+  circ (br s') = Open /\ fcount (br s') = 3 /\ trips (br s') = 1 /\ zcalls s' = 4 /\ fl' = [].
+Proof. vm_compute. repeat split; repeat constructor; discriminate. Qed.
